@@ -117,6 +117,11 @@ def check(rep, tier, seed):
         elif parts[2] != want_dec:
             bad.append((l, a, "graph inside an evolved record: shape or sharing lost"))
     rep.coverage["embedded_in_evolved_record"] = len(elines)
+    # identity is the object, not its address: a struct and its first field are two objects
+    al = C.run_sharded(harness, "graph", ["alias"], wd, "alias")[0]
+    if al != "ok 00000102 new,new,ref,ref":
+        bad.append(("alias (struct and its first field offered to store_ref_or_object)", al,
+                    "two distinct objects that share a start address are not kept distinct"))
     C.proof_coverage(rep, ob, "C10")
     sizes = {}
     for nodes, _ in graphs:
